@@ -40,6 +40,7 @@ func init() {
 			pc.Modes = []int{idx % 3}
 			pc.Unknowns = []int{(idx / 3) % 3}
 			pc.ReqOrder = (idx/9)%3 == 0
+			pc.Help = idx%4 == 1
 			p := GenProg(r, pc)
 			if pc.ReqOrder && idx%2 == 0 {
 				p.ReqOrder = true // otherwise: the generator's choice (root and/or single commands)
